@@ -197,13 +197,15 @@ func (m *c47Model) onlineDelete(fb basics.Round) {
 
 func c47Hex(b []byte) string { return hex.EncodeToString(b) }
 
-func c47A(a basics.Address) string { return hex.EncodeToString(a[:4]) + ".." + hex.EncodeToString(a[30:]) }
+func c47A(a basics.Address) string {
+	return hex.EncodeToString(a[:4]) + ".." + hex.EncodeToString(a[30:])
+}
 
-func c47EncAcct(d trackerdb.BaseAccountData) string         { return c47Hex(protocol.Encode(&d)) }
-func c47EncRes(d trackerdb.ResourcesData) string            { return c47Hex(protocol.Encode(&d)) }
-func c47EncOn(d trackerdb.BaseOnlineAccountData) string     { return c47Hex(protocol.Encode(&d)) }
+func c47EncAcct(d trackerdb.BaseAccountData) string          { return c47Hex(protocol.Encode(&d)) }
+func c47EncRes(d trackerdb.ResourcesData) string             { return c47Hex(protocol.Encode(&d)) }
+func c47EncOn(d trackerdb.BaseOnlineAccountData) string      { return c47Hex(protocol.Encode(&d)) }
 func c47EncParams(d ledgercore.OnlineRoundParamsData) string { return c47Hex(protocol.Encode(&d)) }
-func c47EncTotals(d ledgercore.AccountTotals) string        { return c47Hex(protocol.Encode(&d)) }
+func c47EncTotals(d ledgercore.AccountTotals) string         { return c47Hex(protocol.Encode(&d)) }
 func c47EncSP(d ledgercore.StateProofVerificationContext) string {
 	return c47Hex(protocol.Encode(&d))
 }
@@ -392,7 +394,7 @@ func c47GenTKV(rt *rapid.T, lbl string) basics.TealKeyValue {
 
 func c47GenResData(rt *rapid.T, lbl string, ctype basics.CreatableType, round basics.Round) trackerdb.ResourcesData {
 	d := trackerdb.MakeResourcesData(uint64(round))
-	shape := rapid.IntRange(0, 2).Draw(rt, lbl+"shape") // 0 holding, 1 params, 2 both
+	shape := rapid.IntRange(0, 2).Draw(rt, lbl+"shape")    // 0 holding, 1 params, 2 both
 	zero := rapid.IntRange(0, 4).Draw(rt, lbl+"zero") == 0 // all-default values (flags are the only marker)
 	if ctype == basics.AssetCreatable {
 		if shape != 1 {
